@@ -1,5 +1,331 @@
+(** C15 proofs, part 1: booleans, candidate collection, soundness of [choices]
+    ([one_edit]), totality of the repaired providers, the pinned arithmetic. *)
 From TU Require Import Base C15_Model.
 From Coq Require Import Lia.
 
-Lemma ins_ctx_total t w i : ins_ctx t w i <> Overflow.
-Proof. unfold ins_ctx. discriminate. Qed.
+(** * Boolean reflection *)
+Lemma mem_In i ex : mem i ex = true <-> In i ex.
+Proof.
+  unfold mem. rewrite existsb_exists. split.
+  - intros (x & Hx & E). apply Nat.eqb_eq in E. subst. exact Hx.
+  - intros H. exists i. split; [exact H | apply Nat.eqb_refl].
+Qed.
+
+Lemma mem_false i ex : mem i ex = false <-> ~ In i ex.
+Proof.
+  rewrite <- mem_In. destruct (mem i ex); split; intros H; congruence.
+Qed.
+
+Lemma nlist_eqb_eq a b : nlist_eqb a b = true <-> a = b.
+Proof.
+  revert b; induction a as [|x a IH]; intros [|y b]; cbn; split; intros H; try congruence; try reflexivity.
+  - apply andb_true_iff in H as [H1 H2]. apply N.eqb_eq in H1. apply IH in H2. congruence.
+  - injection H as -> ->. rewrite N.eqb_refl. cbn. apply IH. reflexivity.
+Qed.
+
+Lemma nlist_eqb_refl a : nlist_eqb a a = true.
+Proof. apply nlist_eqb_eq. reflexivity. Qed.
+
+Lemma cls_eqb_eq a b : cls_eqb a b = true <-> a = b.
+Proof.
+  revert b; induction a as [|x a IH]; intros [|y b]; cbn; split; intros H; try congruence; try reflexivity.
+  - apply andb_true_iff in H as [H1 H2]. apply nlist_eqb_eq in H1. apply IH in H2. congruence.
+  - injection H as -> ->. rewrite nlist_eqb_refl. cbn. apply IH. reflexivity.
+Qed.
+
+Lemma ocl_eqb_eq a b : ocl_eqb a b = true <-> a = b.
+Proof.
+  destruct a as [x|], b as [y|]; cbn; try (split; congruence).
+  rewrite nlist_eqb_eq. split; congruence.
+Qed.
+
+Lemma set_eqb_spec a b : set_eqb a b = true <-> (forall x, In x a <-> In x b).
+Proof.
+  unfold set_eqb. rewrite andb_true_iff, !forallb_forall. split.
+  - intros [H1 H2] x. split; intros H; [apply mem_In, H1, H | apply mem_In, H2, H].
+  - intros H. split; intros x Hx; apply mem_In, H, Hx.
+Qed.
+
+Lemma in_rangeb_spec w ex : in_rangeb w ex = true <-> in_range w ex.
+Proof.
+  unfold in_rangeb, in_range. rewrite forallb_forall, Forall_forall.
+  split; intros H x Hx; specialize (H x Hx); [apply Nat.ltb_lt, H | apply Nat.ltb_lt, H].
+Qed.
+
+(** * Candidate collection *)
+Lemma collect_In prov idxs l i es :
+  collect prov idxs = Some l -> In (i, es) l -> In i idxs /\ prov i = Found (Some es).
+Proof.
+  revert l. induction idxs as [|j r IH]; intros l H Hin; cbn in H.
+  - injection H as <-. destruct Hin.
+  - destruct (prov j) as [| |[es'|]] eqn:E; try discriminate.
+    + destruct (collect prov r) as [l'|] eqn:E'; cbn in H; [|discriminate].
+      injection H as <-. destruct Hin as [Hin|Hin].
+      * injection Hin as -> ->. split; [left; reflexivity | exact E].
+      * destruct (IH l' eq_refl Hin) as [H1 H2]. split; [right; exact H1 | exact H2].
+    + destruct (IH l H Hin) as [H1 H2]. split; [right; exact H1 | exact H2].
+Qed.
+
+Lemma collect_total prov idxs :
+  (forall i, In i idxs -> exists o, prov i = Found o) -> exists l, collect prov idxs = Some l.
+Proof.
+  induction idxs as [|j r IH]; intros H; cbn.
+  - eexists; reflexivity.
+  - destruct (H j (or_introl eq_refl)) as [o Ho]. rewrite Ho.
+    destruct IH as [l Hl]. { intros i Hi. apply H. right. exact Hi. }
+    rewrite Hl. destruct o; cbn; eexists; reflexivity.
+Qed.
+
+Lemma collect_fault prov i r :
+  (prov i = Overflow \/ prov i = EmptyWord) -> collect prov (i :: r) = None.
+Proof. intros [H|H]; cbn; rewrite H; reflexivity. Qed.
+
+Lemma pos_edits_In e es : In e (pos_edits es) <-> In (e, true) es.
+Proof.
+  unfold pos_edits. rewrite in_map_iff. split.
+  - intros ([e' b] & E & Hin). cbn in E. subst e'. apply filter_In in Hin as [Hin Hb]. cbn in Hb. subst b. exact Hin.
+  - intros H. exists (e, true). split; [reflexivity|]. apply filter_In. split; [exact H | reflexivity].
+Qed.
+
+(** * Index sets *)
+Lemma ins_idxs_In w ex i :
+  In i (ins_idxs w ex) <-> i <= length w /\ ~ In i ex /\ (0 < i -> ~ In (i - 1) ex).
+Proof.
+  unfold ins_idxs. rewrite filter_In, in_seq, negb_true_iff, orb_false_iff, andb_false_iff, !mem_false.
+  rewrite Nat.ltb_ge. split.
+  - intros [H1 [H2 H3]]. split; [lia|]. split; [exact H2|]. intros H0. destruct H3 as [H3|H3]; [lia | exact H3].
+  - intros [H1 [H2 H3]]. split; [lia|]. split; [exact H2|].
+    destruct i as [|i']; [left; lia | right; apply H3; lia].
+Qed.
+
+Lemma rep_idxs_In w ex i : In i (rep_idxs w ex) <-> i < length w /\ ~ In i ex.
+Proof.
+  unfold rep_idxs. rewrite filter_In, in_seq, negb_true_iff, mem_false. split; intros [H1 H2]; split; try lia; assumption.
+Qed.
+
+Lemma del_idxs_In fd cd w ex i : In i (del_idxs fd cd w ex) -> i < length w /\ ~ In i ex.
+Proof.
+  unfold del_idxs. rewrite filter_In, in_seq, andb_true_iff, negb_true_iff, mem_false.
+  intros [H1 [H2 _]]. split; [lia | exact H2].
+Qed.
+
+Lemma swap_idxs_In cs w ex i :
+  In i (swap_idxs cs w ex) -> i < length w - 1 /\ ~ In i ex /\ ~ In (S i) ex.
+Proof.
+  unfold swap_idxs. rewrite filter_In, in_seq, andb_true_iff, negb_true_iff, orb_false_iff, !mem_false.
+  intros [H1 [[H2 H3] _]]. split; [lia|]. split; assumption.
+Qed.
+
+(** * Providers *)
+Lemma ins_ctx_found t w i : exists o, ins_ctx t w i = Found o.
+Proof. unfold ins_ctx. eexists; reflexivity. Qed.
+
+Lemma rep_ctx_found t w i : w <> [] -> exists o, rep_ctx t w i = Found o.
+Proof.
+  intros Hw. unfold rep_ctx.
+  destruct (nth_error w (Nat.min i (Nat.pred (length w)))) as [s|] eqn:E; [eexists; reflexivity|].
+  exfalso. apply nth_error_None in E. destruct w as [|c w']; [congruence|]. cbn in E. lia.
+Qed.
+
+Lemma ins_ctx_at t w i : i <= length w ->
+  ins_ctx t w i = Found (ins_lookup t (prev_ctx w i) (get_or w i eow)).
+Proof. intros H. unfold ins_ctx. rewrite Nat.min_l by exact H. reflexivity. Qed.
+
+Lemma rep_ctx_at t w i s : nth_error w i = Some s ->
+  rep_ctx t w i = Found (rep_lookup t (prev_ctx w i) s (get_or w (S i) eow)).
+Proof.
+  intros H. unfold rep_ctx.
+  assert (Hi : i < length w) by (apply nth_error_Some; congruence).
+  rewrite Nat.min_l by lia. rewrite H. reflexivity.
+Qed.
+
+Lemma ctx_total_l t r w i :
+  ins_ctx t w i <> Overflow /\ ins_ctx t w i <> EmptyWord /\
+  rep_ctx r w i <> Overflow /\ (w <> [] -> rep_ctx r w i <> EmptyWord).
+Proof.
+  split; [unfold ins_ctx; discriminate|]. split; [unfold ins_ctx; discriminate|]. split.
+  - unfold rep_ctx. destruct (nth_error w _); discriminate.
+  - intros Hw. destruct (rep_ctx_found r w i Hw) as [o Ho]. rewrite Ho. discriminate.
+Qed.
+
+Lemma ctx_pinned_overflow_l t r w :
+  ins_ctx_pinned t w 0 = Overflow /\ rep_ctx_pinned r w 0 = Overflow.
+Proof. split; reflexivity. Qed.
+
+(** away from index 0 the pinned arithmetic and the repaired one coincide *)
+Lemma ins_ctx_pinned_eq t w i : 0 < i -> w <> [] -> ins_ctx_pinned t w i = ins_ctx t w i.
+Proof.
+  intros Hi Hw. unfold ins_ctx_pinned, ins_ctx.
+  destruct (Nat.min i (length w)) as [|j] eqn:E.
+  - destruct w; [congruence|]. cbn in E. lia.
+  - reflexivity.
+Qed.
+
+Lemma rep_ctx_pinned_eq t w i : 0 < i -> 1 < length w -> rep_ctx_pinned t w i = rep_ctx t w i.
+Proof.
+  intros Hi Hw. unfold rep_ctx_pinned, rep_ctx.
+  destruct (Nat.min i (Nat.pred (length w))) as [|j] eqn:E; [lia|]. reflexivity.
+Qed.
+
+(** * Soundness of the choice set *)
+Lemma ins_choices_cases prov w ex l :
+  ins_choices prov w ex = Some l ->
+  exists cands, collect prov (ins_idxs w ex) = Some cands /\
+    (l = [ESame] \/ l = flat_map (fun c => map (EIns (fst c)) (pos_edits (snd c))) cands).
+Proof.
+  unfold ins_choices. destruct (collect prov (ins_idxs w ex)) as [cands|]; [|discriminate].
+  destruct cands as [|c0 cands']; intros H; injection H as <-.
+  - exists []. split; [reflexivity | left; reflexivity].
+  - exists (c0 :: cands'). split; [reflexivity | right; reflexivity].
+Qed.
+
+Lemma rep_choices_cases prov w ex l :
+  rep_choices prov w ex = Some l ->
+  exists cands, collect prov (rep_idxs w ex) = Some cands /\
+    (l = [ESame] \/ l = flat_map (fun c => map (ERep (fst c)) (pos_edits (snd c))) cands).
+Proof.
+  unfold rep_choices. destruct (collect prov (rep_idxs w ex)) as [cands|]; [|discriminate].
+  destruct cands as [|c0 cands']; intros H; injection H as <-.
+  - exists []. split; [reflexivity | left; reflexivity].
+  - exists (c0 :: cands'). split; [reflexivity | right; reflexivity].
+Qed.
+
+Lemma ins_choices_valid c w ex l k :
+  k_ins c = true -> ins_choices (ins_ctx (itab c) w) w ex = Some l -> In k l -> valid_ed c w ex k.
+Proof.
+  intros Hk H Hin. apply ins_choices_cases in H as (cands & E & [->| ->]).
+  - destruct Hin as [<-|[]]. exact Logic.I.
+  - apply in_flat_map in Hin as ([i es] & Hc & Hk').
+    cbn [fst snd] in Hk'. apply in_map_iff in Hk' as (e & <- & He).
+    apply pos_edits_In in He.
+    destruct (collect_In _ _ _ _ _ E Hc) as [Hi Hp].
+    apply ins_idxs_In in Hi as (Hi1 & Hi2 & Hi3).
+    rewrite ins_ctx_at in Hp by exact Hi1. injection Hp as Hp.
+    cbn. repeat split; try assumption. exists es. split; assumption.
+Qed.
+
+Lemma rep_choices_valid c w ex l k :
+  k_rep c = true -> rep_choices (rep_ctx (rtab c) w) w ex = Some l -> In k l -> valid_ed c w ex k.
+Proof.
+  intros Hk H Hin. apply rep_choices_cases in H as (cands & E & [->| ->]).
+  - destruct Hin as [<-|[]]. exact Logic.I.
+  - apply in_flat_map in Hin as ([i es] & Hc & Hk').
+    cbn [fst snd] in Hk'. apply in_map_iff in Hk' as (e & <- & He).
+    apply pos_edits_In in He.
+    destruct (collect_In _ _ _ _ _ E Hc) as [Hi Hp].
+    apply rep_idxs_In in Hi as (Hi1 & Hi2).
+    destruct (nth_error w i) as [s|] eqn:Es; [|apply nth_error_None in Es; lia].
+    rewrite (rep_ctx_at _ _ _ _ Es) in Hp. injection Hp as Hp.
+    cbn. repeat split; try assumption. exists s, es. repeat split; assumption.
+Qed.
+
+Lemma del_choices_valid c cd w ex k :
+  k_del c = true -> In k (del_choices (full_del c) cd w ex) -> valid_ed c w ex k.
+Proof.
+  intros Hk Hin. unfold del_choices in Hin.
+  destruct (del_idxs (full_del c) cd w ex) as [|i0 r] eqn:E.
+  - destruct Hin as [<-|[]]. exact Logic.I.
+  - rewrite <- E in Hin. apply in_map_iff in Hin as (i & <- & Hi).
+    apply del_idxs_In in Hi as [H1 H2]. cbn. repeat split; assumption.
+Qed.
+
+Lemma swap_choices_valid c cs w ex k :
+  k_swap c = true -> In k (swap_choices cs w ex) -> valid_ed c w ex k.
+Proof.
+  intros Hk Hin. unfold swap_choices in Hin.
+  destruct (1 <? length w) eqn:El; [|destruct Hin as [<-|[]]; exact Logic.I].
+  destruct (swap_idxs cs w ex) as [|i0 r] eqn:E.
+  - destruct Hin as [<-|[]]. exact Logic.I.
+  - rewrite <- E in Hin. apply in_map_iff in Hin as (i & <- & Hi).
+    apply swap_idxs_In in Hi as (H1 & H2 & H3). cbn. repeat split; try assumption. lia.
+Qed.
+
+Lemma opt_app_Some {A} (a b : option (list A)) l :
+  opt_app a b = Some l -> exists x y, a = Some x /\ b = Some y /\ l = x ++ y.
+Proof.
+  destruct a as [x|], b as [y|]; cbn; intros H; try discriminate.
+  injection H as <-. exists x, y. repeat split.
+Qed.
+
+Lemma choices_valid c cd cs w ex l k :
+  choices c cd cs w ex = Some l -> In k l -> valid_ed c w ex k.
+Proof.
+  unfold choices, choices_gen. intros H Hin.
+  destruct (negb (k_ins c || k_del c || k_rep c || k_swap c)).
+  { injection H as <-. destruct Hin as [<-|[]]. exact Logic.I. }
+  apply opt_app_Some in H as (l1 & r1 & H1 & H & ->).
+  apply opt_app_Some in H as (l2 & r2 & H2 & H & ->).
+  apply opt_app_Some in H as (l3 & l4 & H3 & H4 & ->).
+  injection H2 as <-. injection H4 as <-.
+  rewrite !in_app_iff in Hin. destruct Hin as [Hin|[Hin|[Hin|Hin]]].
+  - destruct (k_ins c) eqn:Ek; [|injection H1 as <-; destruct Hin].
+    eapply ins_choices_valid; eassumption.
+  - destruct (k_del c) eqn:Ek; [|destruct Hin]. eapply del_choices_valid; eassumption.
+  - destruct (k_rep c) eqn:Ek; [|injection H3 as <-; destruct Hin].
+    eapply rep_choices_valid; eassumption.
+  - destruct (k_swap c) eqn:Ek; [|destruct Hin]. eapply swap_choices_valid; eassumption.
+Qed.
+
+(** * Totality of the repaired code, fault of the pinned code *)
+Lemma ins_choices_total t w ex : exists l, ins_choices (ins_ctx t w) w ex = Some l.
+Proof.
+  unfold ins_choices.
+  destruct (collect_total (ins_ctx t w) (ins_idxs w ex)) as [l Hl].
+  { intros i _. apply ins_ctx_found. }
+  rewrite Hl. destruct l; eexists; reflexivity.
+Qed.
+
+Lemma rep_choices_total t w ex : exists l, rep_choices (rep_ctx t w) w ex = Some l.
+Proof.
+  unfold rep_choices.
+  destruct (collect_total (rep_ctx t w) (rep_idxs w ex)) as [l Hl].
+  { intros i Hi. apply rep_ctx_found. apply rep_idxs_In in Hi as [Hi _]. destruct w; [cbn in Hi; lia | discriminate]. }
+  rewrite Hl. destruct l; eexists; reflexivity.
+Qed.
+
+Lemma choices_total_l c cd cs w ex : exists l, choices c cd cs w ex = Some l.
+Proof.
+  unfold choices, choices_gen.
+  destruct (negb (k_ins c || k_del c || k_rep c || k_swap c)); [eexists; reflexivity|].
+  destruct (ins_choices_total (itab c) w ex) as [l1 H1].
+  destruct (rep_choices_total (rtab c) w ex) as [l3 H3].
+  rewrite H1, H3. destruct (k_ins c), (k_rep c); cbn; eexists; reflexivity.
+Qed.
+
+Lemma outcomes_total_l c cd cs w ex : exists l, outcomes c cd cs w ex = Some l.
+Proof.
+  unfold outcomes. destruct (choices_total_l c cd cs w ex) as [l Hl]. rewrite Hl. eexists; reflexivity.
+Qed.
+
+Lemma ins_idxs_head w ex : ~ In 0 ex -> exists r, ins_idxs w ex = 0 :: r.
+Proof.
+  intros H. unfold ins_idxs. cbn [seq filter].
+  apply mem_false in H. rewrite H. cbn. eexists; reflexivity.
+Qed.
+
+Lemma rep_idxs_head w ex : w <> [] -> ~ In 0 ex -> exists r, rep_idxs w ex = 0 :: r.
+Proof.
+  intros Hw H. unfold rep_idxs. destruct w as [|c w']; [congruence|]. cbn [length seq filter].
+  apply mem_false in H. rewrite H. cbn. eexists; reflexivity.
+Qed.
+
+Lemma opt_app_None_l {A} (b : option (list A)) : opt_app None b = None.
+Proof. reflexivity. Qed.
+Lemma opt_app_None_r {A} (a : option (list A)) : opt_app a None = None.
+Proof. destruct a; reflexivity. Qed.
+
+(** the pinned code: a call with insert enabled and position 0 not excluded can
+    hit the overflow; likewise with replace enabled on a non-empty word *)
+Lemma choices_pinned_fault_l c cd cs w ex :
+  ~ In 0 ex -> (k_ins c = true \/ (k_rep c = true /\ w <> [])) -> choices_pinned c cd cs w ex = None.
+Proof.
+  intros H0 Hk. unfold choices_pinned, choices_gen.
+  destruct Hk as [Hk|[Hk Hw]].
+  - rewrite Hk. cbn [orb negb].
+    destruct (ins_idxs_head w ex H0) as [r Hr]. unfold ins_choices. rewrite Hr.
+    rewrite collect_fault by (left; reflexivity). reflexivity.
+  - rewrite Hk. rewrite !orb_true_r. cbn [orb negb].
+    destruct (rep_idxs_head w ex Hw H0) as [r Hr]. unfold rep_choices at 1. rewrite Hr.
+    rewrite collect_fault by (left; reflexivity).
+    rewrite opt_app_None_l, !opt_app_None_r. reflexivity.
+Qed.
